@@ -556,3 +556,36 @@ pub fn has_inline_crlf_flag(pattern: &str) -> bool {
     }
     false
 }
+
+/// An earlier input for the same `Searcher` (see `SCfg::warm`): a few lines,
+/// sometimes without a final terminator, with a NUL, starting with a UTF-16
+/// byte-order mark, or large enough to grow the searcher's buffers.
+pub fn gen_warm(t: &mut Tape, term: Term) -> Option<crate::bs::Bs> {
+    if !t.chance(1, 3) {
+        return None;
+    }
+    let mut v: Vec<u8> = vec![];
+    if t.chance(1, 8) {
+        v.extend_from_slice(b"\xFF\xFEx\x00\n\x00");
+    }
+    let n = 1 + t.small(6);
+    for i in 0..n {
+        let len = t.small(12);
+        for _ in 0..len {
+            v.push(*t.pick(b"xoab x\xC3\xA9"));
+        }
+        if t.chance(1, 10) {
+            v.push(0);
+        }
+        if i + 1 < n || !t.chance(1, 3) {
+            v.extend_from_slice(term.bytes());
+        }
+    }
+    if t.chance(1, 12) {
+        let line: Vec<u8> = b"warm x line ".iter().copied().chain(term.bytes().iter().copied()).collect();
+        for _ in 0..(70_000 / line.len()) {
+            v.extend_from_slice(&line);
+        }
+    }
+    Some(crate::bs::Bs(v))
+}
